@@ -134,6 +134,46 @@ def canon_facts(cfg, node, **kw):
     return [canon_fact(e, pol) for e, pol in guard_facts(cfg, node, **kw)]
 
 
+def return_cases(fi, fold=True):
+    """Every way the function hands a value back, by role: [(value expression, sorted canonical facts under which it is returned)].
+    `return a if c else b` counts as two cases, exactly like `if c: return a` / `return b`; module-level constants the reference tree
+    does not have are folded into the values."""
+    from .cfg import cfg_of
+    from .dataflow import fold_module_constants
+    from .model import walk_body
+    cfg = cfg_of(fi)
+    out = []
+
+    def split(v, facts):
+        if isinstance(v, ast.IfExp):
+            split(v.body, facts + [canon_fact(e, p) for e, p in _atoms(v.test, True, cfg, at)])
+            split(v.orelse, facts + [canon_fact(e, p) for e, p in _atoms(v.test, False, cfg, at)])
+        else:
+            out.append((fold_module_constants(v, fi) if fold and v is not None else v, sorted(set(facts))))
+    for st in walk_body(fi):
+        if isinstance(st, ast.Return):
+            at = cfg.node_for(st)
+            split(st.value, canon_facts(cfg, at))
+    return out
+
+
+def value_cases(cfg: CFG, st: ast.stmt, value: Optional[ast.AST] = None):
+    """The value a statement assigns / returns, case by case: a conditional expression counts like the if/else it abbreviates.
+    -> [(value expression, [(fact text, polarity)] holding when that value is taken)]  (facts as norm text, statement guards first)."""
+    at = cfg.node_for(st)
+    base = [(norm(e), pol) for e, pol in guard_facts(cfg, at)]
+    out = []
+
+    def split(v, facts):
+        if isinstance(v, ast.IfExp):
+            split(v.body, facts + [(norm(e), p) for e, p in _atoms(v.test, True, cfg, at)])
+            split(v.orelse, facts + [(norm(e), p) for e, p in _atoms(v.test, False, cfg, at)])
+        else:
+            out.append((v, facts))
+    split(value if value is not None else getattr(st, "value", None), base)
+    return out
+
+
 def _atoms_and_eval(e: ast.AST):
     """Boolean structure of `e`: returns (atoms, fn) where atoms are canonical texts of the non-boolean leaves (a `!=` leaf is the negation of the `==`
     atom, `is None` of `is not None`, `not in` of `in`) and fn(assignment: dict) evaluates e."""
